@@ -329,7 +329,10 @@ func (c *StandardClass) mergeSupers() bool {
 		sc := c.pkg.FindClass(string(super))
 		ssc := c.inheritCheck(sc)
 		if ssc == nil || len(ssc.precedence) == 0 {
+			// Not ready (any more) so that the class is merged again
+			// once the missing superclass has been defined.
 			c.inherit = c.inherit[:0]
+			c.precedence = nil
 			return false
 		}
 		if c.Inherits(ssc) {
